@@ -78,73 +78,99 @@ func ruleSHADOW(p *Program, rep *Report) {
 	v := newPageVocab(p)
 	fn := v.doFlush
 	rep.Analysed(funcName(fn))
-	// qualifying blocks: a store to Page.ondiskID that makes the target fresh
-	blocked := map[*ssa.BasicBlock]bool{}
-	blockedEdges := map[cfgEdge]bool{}
 	nQual := 0
-	for _, b := range fn.Blocks {
-		for _, ins := range b.Instrs {
-			st, ok := ins.(*ssa.Store)
-			if !ok || addrField(st.Addr) != v.fOndisk {
-				continue
-			}
-			facts := blockFacts(b)
-			val := stripConv(st.Val)
-			// (b) ondiskID := allocWALID(...) on the id == ondiskID edge, result != 0
-			if c := callTo(val, v.allocWALID); c != nil {
-				ok := facts.every(func(cj conj) bool {
-					eq := cj.has(func(a atom) bool { op, ok := v.idCmp(a); return ok && op == token.EQL })
-					nz := cj.has(func(a atom) bool {
-						op, x, y, ok := cmpAtom(a)
-						return ok && op == token.NEQ && ((stripConv(x) == ssa.Value(c) && isIntConst(y, 0)) || (stripConv(y) == ssa.Value(c) && isIntConst(x, 0)))
-					})
-					return eq && nz
-				})
-				if ok {
-					blocked[b] = true
-					nQual++
-					rep.OK("SHADOW", "Page.doFlush|redirect-to-fresh-overwrite-page", p.InstrPos(st), "ondiskID := allocWALID() != 0 on the id == ondiskID edge")
-				}
-				continue
-			}
-			// (c) ondiskID := id on the id != ondiskID edge, with the WAL entry released before
-			if loadedField(val) == v.fID {
-				ok := facts.every(func(cj conj) bool {
-					return cj.has(func(a atom) bool { op, ok := v.idCmp(a); return ok && op == token.NEQ })
-				})
-				released := false
-				idx := instrIndex(b, st)
-				for i := 0; i < idx; i++ {
-					if c, isCall := b.Instrs[i].(*ssa.Call); isCall && v.releasesWAL(c.Common().StaticCallee()) {
-						released = true
+	// freshness analysis of one function: blocks containing a store to Page.ondiskID that makes the target
+	// fresh, and the new == true edge
+	var freshOf func(f *ssa.Function, depth int) (map[*ssa.BasicBlock]bool, map[cfgEdge]bool)
+	freshOf = func(f *ssa.Function, depth int) (map[*ssa.BasicBlock]bool, map[cfgEdge]bool) {
+		blocked := map[*ssa.BasicBlock]bool{}
+		blockedEdges := map[cfgEdge]bool{}
+		for _, b := range f.Blocks {
+			for _, ins := range b.Instrs {
+				// a helper all of whose successful returns passed a freshness store counts like one
+				if c, ok := ins.(*ssa.Call); ok && depth < 2 {
+					h := c.Common().StaticCallee()
+					if h != nil && h != f && fnPkgPath(h) == modPath && len(h.Blocks) > 0 && storesField(h, v.fOndisk) {
+						hb, he := freshOf(h, depth+1)
+						reach := reachableAvoiding(h.Blocks[0], hb, he)
+						allFresh := true
+						for _, bb := range h.Blocks {
+							if r, ok := bb.Instrs[len(bb.Instrs)-1].(*ssa.Return); ok && returnsNilError(r) && reach[bb] {
+								allFresh = false
+							}
+						}
+						if allFresh {
+							rep.Analysed(funcName(h))
+							blocked[b] = true
+							nQual++
+							rep.OK("SHADOW", "Page.doFlush|helper "+h.Name(), p.InstrPos(c), "every successful return of the helper passed a freshness store")
+						}
 					}
 				}
-				if ok && released {
-					blocked[b] = true
-					nQual++
-					rep.OK("SHADOW", "Page.doFlush|back-to-unreferenced-original", p.InstrPos(st), "ondiskID := id on the id != ondiskID edge after freeWALID")
+				st, ok := ins.(*ssa.Store)
+				if !ok || addrField(st.Addr) != v.fOndisk {
+					continue
+				}
+				facts := p.ctxFacts(b)
+				val := stripConv(st.Val)
+				// (b) ondiskID := allocWALID(...) on the id == ondiskID edge, result != 0
+				if c := callTo(val, v.allocWALID); c != nil {
+					ok := facts.every(func(cj conj) bool {
+						eq := cj.has(func(a atom) bool { op, ok := v.idCmp(a); return ok && op == token.EQL })
+						nz := cj.has(func(a atom) bool {
+							op, x, y, ok := cmpAtom(a)
+							return ok && op == token.NEQ && ((stripConv(x) == ssa.Value(c) && isIntConst(y, 0)) || (stripConv(y) == ssa.Value(c) && isIntConst(x, 0)))
+						})
+						return eq && nz
+					})
+					if ok {
+						blocked[b] = true
+						nQual++
+						rep.OK("SHADOW", "Page.doFlush|redirect-to-fresh-overwrite-page", p.InstrPos(st), "ondiskID := allocWALID() != 0 on the id == ondiskID edge")
+					}
+					continue
+				}
+				// (c) ondiskID := id on the id != ondiskID edge, with the WAL entry released before
+				if loadedField(val) == v.fID {
+					ok := facts.every(func(cj conj) bool {
+						return cj.has(func(a atom) bool { op, ok := v.idCmp(a); return ok && op == token.NEQ })
+					})
+					released := false
+					idx := instrIndex(b, st)
+					for i := 0; i < idx; i++ {
+						if c, isCall := b.Instrs[i].(*ssa.Call); isCall && v.releasesWAL(c.Common().StaticCallee()) {
+							released = true
+						}
+					}
+					if ok && released {
+						blocked[b] = true
+						nQual++
+						rep.OK("SHADOW", "Page.doFlush|back-to-unreferenced-original", p.InstrPos(st), "ondiskID := id on the id != ondiskID edge after freeWALID")
+					}
 				}
 			}
-		}
-		// (a) the new == true edge
-		if ifi, ok := b.Instrs[len(b.Instrs)-1].(*ssa.If); ok {
-			for _, pol := range []bool{true, false} {
-				for _, cj := range condDNF(ifi.Cond, pol, 0, map[ssa.Value]bool{}) {
-					for _, a := range cj {
+			// (a) the new == true edge
+			if ifi, ok := b.Instrs[len(b.Instrs)-1].(*ssa.If); ok {
+				for _, pol := range []bool{true, false} {
+					d := condDNF(ifi.Cond, pol, 0, map[ssa.Value]bool{})
+					if len(d) != 1 {
+						continue
+					}
+					for _, a := range d[0] {
 						if loadedField(a.v) == v.fNew && a.pol {
 							succ := b.Succs[1]
 							if pol {
 								succ = b.Succs[0]
 							}
-							if len(condDNF(ifi.Cond, pol, 0, map[ssa.Value]bool{})) == 1 {
-								blockedEdges[cfgEdge{b, succ}] = true
-							}
+							blockedEdges[cfgEdge{b, succ}] = true
 						}
 					}
 				}
 			}
 		}
+		return blocked, blockedEdges
 	}
+	blocked, blockedEdges := freshOf(fn, 0)
 	writes := callsIn(fn, func(c *ssa.Function, _ ssa.CallInstruction) bool { return c == v.scheduleWrite || c == v.schedule })
 	if len(writes) == 0 {
 		rep.Bad("SHADOW", "Page.doFlush|no-write", p.Pos(fn.Pos()), "Page.doFlush no longer schedules the page write (anchor lost)")
@@ -334,7 +360,7 @@ func ruleBUFFERPRESERVE(p *Program, rep *Report) {
 					continue
 				}
 				how := ""
-				good := blockFacts(b).every(func(cj conj) bool {
+				good := p.ctxFacts(b).every(func(cj conj) bool {
 					return cj.has(func(a atom) bool {
 						if loadedField(a.v) == v.fDirty && !a.pol {
 							how = "flags.dirty == false"
@@ -413,7 +439,7 @@ func rulePAGEBOUNDS(p *Program, rep *Report) {
 	rep.Analysed(funcName(fn))
 	idParam := fn.Params[len(fn.Params)-1]
 	check := func(ins ssa.Instruction, what string) {
-		facts := blockFacts(ins.Block())
+		facts := p.ctxFacts(ins.Block())
 		var missing []string
 		lower := facts.every(func(cj conj) bool {
 			return cj.has(func(a atom) bool {
@@ -527,7 +553,7 @@ func ruleSETBYTESBOUND(p *Program, rep *Report) {
 				continue
 			}
 			n++
-			good := blockFacts(b).every(func(cj conj) bool {
+			good := p.ctxFacts(b).every(func(cj conj) bool {
 				return cj.has(func(a atom) bool {
 					op, x, y, ok := cmpAtom(a)
 					if !ok {
@@ -633,4 +659,16 @@ func ruleCHECKPOINTCOMPLETE(p *Program, rep *Report) {
 	if n == 0 {
 		rep.OK("CHECKPOINT-COMPLETE", "Tx.doCheckpointWAL|no-skip", p.Pos(fn.Pos()), "every iteration records the entry")
 	}
+}
+
+// storesField: f (or a function it calls statically, one level) stores to the given field.
+func storesField(f *ssa.Function, fld *types.Var) bool {
+	for _, b := range f.Blocks {
+		for _, ins := range b.Instrs {
+			if st, ok := ins.(*ssa.Store); ok && addrField(st.Addr) == fld {
+				return true
+			}
+		}
+	}
+	return false
 }
